@@ -76,9 +76,9 @@ Definition run_sens (w : wire) : wire :=
 
 (* ---- machine 4: Mesh ---- *)
 Definition getMdesc : dec mdesc :=
-  do st <- getZ; do vs <- getVec; do ts <- getList (do a <- getN; do b <- getN; do c <- getN; ret (a, b, c)); do so <- getZ; do sf <- getBool;
-  ret {| m_status := st; m_vs := vs; m_ts := ts; m_source := so; m_sflag := sf |}.
-Definition getMop : dec mop := do o <- getN; do i <- getN; match o with O => ret (MLoad i) | _ => ret MSurfSource end.
+  do st <- getZ; do vs <- getVec; do ts <- getList (do a <- getN; do b <- getN; do c <- getN; ret (a, b, c)); do so <- getZ; do sf <- getBool; do so2 <- getZ; do sf2 <- getBool;
+  ret {| m_status := st; m_vs := vs; m_ts := ts; m_source := so; m_sflag := sf; m_source2 := so2; m_sflag2 := sf2 |}.
+Definition getMop : dec mop := do o <- getN; do i <- getN; match o with O => ret (MLoad i) | 1%nat => ret MSurfSource | _ => ret MSurfSource2 end.
 Definition run_mesh (w : wire) : wire :=
   run_dec (do cb <- getN; do W <- getList getMdesc; do ops <- getList getMop; ret (cb, W, ops)) w
     (fun '(cb, W, ops) =>
